@@ -261,6 +261,38 @@ def validateOperationsGo (S : Schema) (D : Document) (fuel : Nat) : List Err × 
 
 /-! ## validate_fields.go — first pass: existence and leaf/composite -/
 
+def isCompositeName (S : Schema) (n : String) : Bool :=
+  match kindOf S n with
+  | some k => k.isComposite
+  | none => false
+
+/-- `switch parent := selectionSetTypes[len-1].(type)` (validate_fields.go:52-68): the "does not
+    exist" error, for fields other than `__typename`. -/
+def missingFieldErrors (S : Schema) (scope : Option String) (name : String) (npos : Pos) : List Err :=
+  let missing (p : String) := [newError npos ("field " ++ name ++ " does not exist on " ++ p)]
+  if name != "__typename" then
+    match scope with
+    | none => []
+    | some p =>
+      match kindOf S p with
+      | some (.object fs _) =>
+        if (findField fs name).isNone && (p != S.query || (findField S.metaFields name).isNone) then missing p else []
+      | some (.interface fs) => if (findField fs name).isNone then missing p else []
+      | some (.union _) => missing p
+      | _ => []
+  else []
+
+/-- validate_fields.go:70-79: sub-selection present / absent as the field's type requires. -/
+def subselectionErrors (shouldHaveSubselection : Bool) (name : String) (fp : Pos) (sel : Option SelSet) : List Err :=
+  if shouldHaveSubselection then
+    (match sel with
+     | none => [newError fp (name ++ " field must have a subselection")]
+     | some ss => if ss.sels.isEmpty then [newError fp (name ++ " field must have a subselection")] else [])
+  else
+    (match sel with
+     | some _ => [newError fp (name ++ " field cannot have a subselection")]
+     | none => [])
+
 /-- The callback's work at a field node (validate_fields.go:33-79). -/
 def fieldNodeErrors (S : Schema) (scope : Option String) (alias : Option (String × Pos))
     (name : String) (npos : Pos) (sel : Option SelSet) : List Err :=
@@ -268,36 +300,12 @@ def fieldNodeErrors (S : Schema) (scope : Option String) (alias : Option (String
   let fdef := fieldDefinition S scope name
   let shouldHaveSubselection :=
     match fdef with
-    | some d => (match kindOf S d.type.base with
-                 | some k => k.isComposite
-                 | none => false)
+    | some d => isCompositeName S d.type.base
     | none => false
   let e1 := if fdef.isNone && name != "__typename" then [newSecondaryError fp "no type info for field"] else []
-  let missing (p : String) := [newError npos ("field " ++ name ++ " does not exist on " ++ p)]
-  let e2 : List Err :=
-    if name != "__typename" then
-      match scope with
-      | none => []
-      | some p =>
-        match kindOf S p with
-        | some (.object fs _) =>
-          if (findField fs name).isNone && (p != S.query || (findField S.metaFields name).isNone) then missing p else []
-        | some (.interface fs) => if (findField fs name).isNone then missing p else []
-        | some (.union _) => missing p
-        | _ => []
-    else []
+  let e2 := missingFieldErrors S scope name npos
   let fieldExists := e2.isEmpty
-  let e3 : List Err :=
-    if fieldExists then
-      if shouldHaveSubselection then
-        (match sel with
-         | none => [newError fp (name ++ " field must have a subselection")]
-         | some ss => if ss.sels.isEmpty then [newError fp (name ++ " field must have a subselection")] else [])
-      else
-        (match sel with
-         | some _ => [newError fp (name ++ " field cannot have a subselection")]
-         | none => [])
-    else []
+  let e3 := if fieldExists then subselectionErrors shouldHaveSubselection name fp sel else []
   e1 ++ e2 ++ e3
 
 mutual
@@ -678,11 +686,6 @@ def validateDirectives (S : Schema) (D : Document) : List Err :=
     | .frag _ _ _ _ dirs sel _ => checkDirectives S "FRAGMENT_DEFINITION" dirs ++ dirsSet S sel
 
 /-! ## validate_fragments.go -/
-
-def isCompositeName (S : Schema) (n : String) : Bool :=
-  match kindOf S n with
-  | some k => k.isComposite
-  | none => false
 
 /-- `validateTypeCondition`. -/
 def typeConditionErrors (S : Schema) (tc : String) (p : Pos) : List Err :=
